@@ -402,11 +402,52 @@ def rule_attach(ctx):
     calls = [n for n in ast.walk(att.node) if isinstance(n, ast.Call) and isinstance(n.func, ast.Attribute) and n.func.attr == "attach_event_handler"]
     ok = len(calls) == 1 and len(calls[0].args) == 2 and ast.unparse(calls[0].args[0]).endswith("event_type")
     ctx.check(ok, "C14.ATTACH", att.short, "attach_event_handler(event_type, f) per attachment", "attach_event_handlers does not register every attachment under its event type", fi=att, text="attach-loop")
+    # attach + dispatch, evaluated together on a definition object produced by its real constructor: handlers attached
+    # for an event type are exactly the ones raise_event invokes for an event of that type, once each, in attachment order
     esd = p.cls("indi.device.events.EventSourceDefinition")
     f = esd.methods["attach_event_handler"]
-    paths = run_method(p, f)
-    ok = all(any(e.kind == "store" and e.data.get("key") is not None and show(e.data["value"]) == "callback" and "event_handlers[event_type]" in show(e.data["target"]) for e in pa.events) for pa in paths if pa.outcome == "return")
-    ctx.check(ok, "C14.ATTACH", f.short, "stores the callback under its event type on every path", "attach_event_handler does not store the callback under event_handlers[event_type]", fi=f, text="attach-store")
+    src = p.cls("indi.device.events.EventSource")
+    rz = src.find_method("raise_event")
+    wcls, ccls = p.cls("indi.device.events.Write"), p.cls("indi.device.events.Change")
+    from ..absint import Frame
+    # the attribute through which an event source reaches its definition (whatever it is called)
+    defattrs = {n_.value.attr for n_ in ast.walk(rz.node) if isinstance(n_, ast.Attribute) and n_.attr == "event_handlers" and isinstance(n_.value, ast.Attribute) and isinstance(n_.value.value, ast.Name) and n_.value.value.id == "self"}
+    if len(defattrs) != 1:
+        raise Undecided("raise_event does not read self.<definition>.event_handlers")
+    defattr = defattrs.pop()
+
+    def fm(it, callee, args, kwargs):
+        if isinstance(callee, Foreign) and callee.dotted.endswith("iscoroutinefunction"):
+            return Const(isinstance(args[0], Obj) and args[0].label.startswith("<co:"))
+        return None
+
+    def run_att(it: Interp):
+        fr = Frame(None, esd.module, {})
+        d = it.apply(Cls(esd), [], {}, [], None, fr, False)
+        cbs = {n_: Obj(None, {}, label=n_) for n_ in ("<fn:A>", "<fn:B>", "<co:C>", "<fn:D>")}
+        for n_, et in (("<fn:A>", wcls), ("<fn:B>", wcls), ("<co:C>", wcls), ("<fn:D>", ccls)):
+            it.run_function(Fn(f, d), [Cls(et), cbs[n_]], {})
+        holder = Obj(src, {defattr: d}, label="source")
+        ev = Obj(wcls, {}, label="event")
+        it.ev = ev
+        del it.events[:]
+        return it.run_function(Fn(rz, holder), [ev], {})
+
+    paths = explore(p, run_att, {"inline": lambda fi, node: fi.module.name == "indi.device.events", "instantiate": lambda ci: ci is esd, "foreign_model": fm})
+    ctx.paths_enumerated += len(paths)
+    ok = len(paths) == 1 and paths[0].outcome == "return"
+    got = None
+    if ok:
+        pa = paths[0]
+        got = []
+        for e in pa.events:
+            if e.kind != "call":
+                continue
+            cal = e.data["callee"]
+            if isinstance(cal, Obj) and cal.label.startswith(("<fn:", "<co:")):
+                got.append((cal.label, "direct" if not any(is_call(x.data["term"], method="create_task") and x.data["args"] and x.data["args"][0] is e.data["term"] for x in pa.events if x.kind == "call") else "task", bool(e.data["args"]) and e.data["args"][0] is pa.interp.ev))
+        ok = got == [("<fn:A>", "direct", True), ("<fn:B>", "direct", True), ("<co:C>", "task", True)]
+    ctx.check(ok, "C14.ATTACH", f.short, "handlers attached for an event type are invoked for events of that type: once each, in order, coroutine functions as tasks", f"after attaching A, B (plain), C (coroutine) for Write and D for Change, raising a Write invokes {got}: expected A and B directly and C as a task, each once with the event, and not D", fi=f, text="attach-store")
 
 
 # 'exactly one update is published (if the property is enabled)' needs the disabled-property and None-dropping rules;
